@@ -30,7 +30,7 @@ def load_known_findings(pid):
     return out
 
 
-def extract_counterexample(scratch, h, features=(), what=""):
+def extract_counterexample(scratch, h, features=(), what="", cap_s=2400):
     """Re-run the single failing harness with concrete playback and return the flattened
     bytes of all nondeterministic values in order of creation."""
     cmd = ["cargo", "kani", "-Z", "stubbing", "-Z", "unstable-options", "-Z", "concrete-playback",
@@ -41,7 +41,7 @@ def extract_counterexample(scratch, h, features=(), what=""):
         cmd += ["--features", ",".join(features)]
     cmd += ["--cbmc-args"] + C.CBMC_ARGS
     env = dict(C.ENV)
-    p = subprocess.run(["bash", "-c", "exec timeout 2400 " + " ".join(C._q(c) for c in cmd)],
+    p = subprocess.run(["bash", "-c", "exec timeout %d " % cap_s + " ".join(C._q(c) for c in cmd)],
                        cwd=scratch, env=env, stdout=subprocess.PIPE, stderr=subprocess.STDOUT, text=True)
     txt = p.stdout
     # Kani prints one generated test per check (failed assertions AND satisfied covers), each
@@ -197,7 +197,8 @@ def validate_witness(pid, h, cover, scratches, keep=False):
             scratch = s
     if scratch is None:
         return None, "no scratch copy"
-    data, err = extract_counterexample(scratch, h, list(h.cfgs), cover)
+    # the witness harness is the cheapest passing one: a tight cap keeps the quick command in budget
+    data, err = extract_counterexample(scratch, h, list(h.cfgs), cover, cap_s=300)
     if data is None:
         return None, "no witness extracted: " + err[-200:]
     r = native_replay(h, data.hex(), keep=keep)
